@@ -237,3 +237,12 @@ claim(
     "abstract interpretation of a function prefix over an indicator-algebra array domain; polynomial identity against a sequential-painting oracle",
     "DESIGN.md §5 C18",
 )
+
+claim(
+    "C15",
+    "other",
+    "Decides what update_detector_states hands to a detector. The co-location stencil of interpolate_fields on symbolic fields equals the stencil derived from the Yee staggering for the target (i, j, k+1/2) — per axis none / backward pair / forward pair (4,4,1,2,2,8 points), non-uniform backward pairs weighted by the half widths of their own axis with the first cell replicated. The whole path is interpreted on a concrete 5x4x4 grid of free symbolic field entries (current and previous H separate) and symbolic widths, for deep-interior / interior (fast path), face-touching, whole-domain and raw detectors on zero, periodic and electric / magnetic symmetry halos (one and two electric planes), uniform and non-uniform: the E and H arrays received by Detector.update equal entry by entry the stencil values under the halo rule (zero outside; wrap on periodic axes but never into the min halo of a symmetric axis; parity * mirror partner on electric symmetry planes, partner second cell for on-plane components, corners doubly mirrored), H time-centred (H_prev+H)/2 in both interpolating paths and untouched in the raw path, materials restricted to the region. Holds for all field values on that grid.",
+    TB + "; np.pad model on concrete arrays; Yee offsets E_c at +1/2 e_c, H_c at +1/2(1-e_c); parity / on-plane oracles of C32",
+    "abstract interpretation over a stencil domain and on a concrete grid of free symbols; entry-wise polynomial identity against a stencil + halo oracle",
+    "DESIGN.md §5 C15",
+)
